@@ -1,4 +1,5 @@
 import Syzgy.Model.Query.Parser
+import Syzgy.Lemmas.ParseSpec
 /-!
 # C15 — a filter is accepted only if its whole text is one expression
 -/
@@ -43,5 +44,22 @@ theorem null_is_consumed (nx : TokSrc) (nok : NumOK) (fuel : Nat) (s s1 : PS)
     | ok r => obtain ⟨t, p⟩ := r; rw [h] at hadv; cases hadv; rfl
     | err m => rw [h] at hadv; simp at hadv
     | panic m => rw [h] at hadv; simp at hadv
+
+
+/-- **`A J` is rejected**: the canonical tokens of any expression followed by a token that cannot continue
+    it (a literal, an identifier, a closing bracket, a comma, ... — anything but AND, OR or a comparison
+    operator) are refused with "unexpected token after expression", whatever follows -/
+theorem expression_then_junk_is_rejected (nok : Query.NumOK) (e : Query.Expr) (he : e.OK nok) (j : Query.Token)
+    (J : List Query.Token) (hj : Query.isComparisonOperator j.type = false) (hand : j.type ≠ .and) (hor : j.type ≠ .or)
+    (heof : j.type ≠ .eof) (fuel : Nat) (hf : e.need + 2 ≤ fuel) :
+    Query.parseSrc (Query.listSrc (e.toks 0 ++ j :: J)) nok fuel = .err "unexpected token after expression" :=
+  Query.trailing_rejected nok e he j J hj hand hor heof fuel hf
+
+/-- **a condition after `null` counts**: `x == null AND B` parses to the conjunction of both -/
+theorem null_then_and (nok : Query.NumOK) (p : Query.Path) (hp : p.numsOK nok) (B : Query.Expr) (hB : B.OK nok) (fuel : Nat)
+    (hf : (Query.Expr.and (.cmp .eq p .null) B).need + 2 ≤ fuel) :
+    Query.parseSrc (Query.listSrc ((Query.Expr.and (.cmp .eq p .null) B).toks 0)) nok fuel =
+      .ok (.expr (.expr p.ast b!"==" (.value .null)) b!"AND" B.ast) :=
+  Query.parse_canonical nok (.and (.cmp .eq p .null) B) (show (Query.Expr.cmp .eq p .null).OK nok ∧ B.OK nok from ⟨⟨hp, by intro lit h; cases h⟩, hB⟩) fuel hf
 
 end Syzgy.C15
